@@ -746,3 +746,29 @@ package mq
 //@     invariant forall k in 0..old(len(*p)): (*p)[k] == old((*p)[k])                                          #C12
 //@     assigns *p, capelems(*p)
 //@     decreases len(kvPair) - i
+
+// ---------------------------------------------------------------- WellFormed (C17)
+
+//@ func (*Publish).WellFormed
+//@   inline
+//@   ensures (result != nil) == ((len(p.topicName) == 0 && p.topicAlias == 0) || (((p.fixed & 6) == 2 || (p.fixed & 6) == 4) && p.packetID == 0) || (p.fixed & 6) == 6)    #C17
+
+//@ func (*TopicFilter).WellFormed
+//@   inline
+//@   ensures (result != nil) == (len(c.filter) == 0 || (c.options & 3) == 3)                                       #C17
+
+//@ func (*Subscribe).WellFormed
+//@   inline
+//@   ensures (result != nil) == (len(p.filters) == 0 || (p.subscriptionID != nil && uint(*p.subscriptionID) > 268435455) || (exists j in 0..len(p.filters): len(p.filters[j].filter) == 0 || (p.filters[j].options & 3) == 3))   #C17
+//@   loop 0:
+//@     invariant rangeindex < len(p.filters)
+//@     invariant forall j in 0..rangeindex+1: !(len(p.filters[j].filter) == 0 || (p.filters[j].options & 3) == 3)    #C17
+//@     decreases len(p.filters) - rangeindex
+
+//@ func (*Publish).String
+//@   inline
+//@   ensures (self.WellFormed() != nil) == sameFormat(result, specMalformedFmt)                                    #C17
+
+//@ func (*Subscribe).String
+//@   inline
+//@   ensures (self.WellFormed() != nil) == sameFormat(result, specMalformedFmt)                                    #C17
